@@ -67,6 +67,12 @@ CLAIMED = {
     note="Generated phase bodies are assumed (A-EMIT) to keep temporaries in Python locals; storage classes of names are proved under C13. StopIteration from a user function is converted by PEP 479 (finding D32). Bounded stand-in: fault injection at every call site of generated programs in both backends.",
     technique="contract-based deductive verification: exceptional postconditions (try/finally, generator delegation) on the real stepper functions and extracted templates",
     ref="6/C11"),
+
+ "C16": dict(cat="proof",
+    text="map_expressions along the class chains of Assign, YieldState, AssignFunctionCall (chains recomputed from the source) is proved, for an arbitrary mapper, to map guard, lhs, rhs, loop identifiers and bounds, yielded value/time, function id, arguments and assignees and to leave every other field unchanged (so a renaming reaches every occurrence; with the identity nothing changes); fuse_two_phases / fuse_two_dags are proved to pass the caller's name predicate on (default: persistent names, <t>, <dt> stay shared), fuse phases of equal name over the union of names, copy one-sided phases and raise ValueError exactly when default successors or initial phases differ. Relative to A-FUSE for pymbolic's disambiguate_and_fuse.",
+    note="Unique ids, intact internal dependencies and fresh names for clashing temporaries come from the assumed contract A-FUSE (external pymbolic code). Non-interference at run time is argued through C02/L-PERM and sampled by the bounded stand-in (fused vs separate runs).",
+    technique="contract-based deductive verification: ast->z3 VC generation along MRO chains with an uninterpreted mapper; assumed contract on the external fusion routine",
+    ref="6/C16"),
 }
 
 NOT_APPLICABLE = {
